@@ -93,3 +93,28 @@ PROPS['C17'] = {
                   'Entry::update_history / History::add_entry by a differential run over generated operation sequences, and the clauses are '
                   're-evaluated on the real trace.',
 }
+
+PROPS['C10'] = {
+    'ops': ['ioread'],
+    'rule': 'files: 3 freshly saved KDBX4 (cheap AES-KDF), the KDB / KDBX3 / Argon2-KDBX4 / broken resource files, 6 short prefixes; '
+            'x entry points {open, get_xml, get_version, with_keyfile} x schedules {whole, constant caps 1..16, random caps with '
+            'interruptions, leading interruptions, tiny reads around the 12-byte version header} x failure offsets (quick: 10 fixed + 14 random '
+            'per file; thorough: every offset 0..len+1) x kinds {Other, UnexpectedEof, BrokenPipe}. '
+            'non-trivial = the schedule splits the first 12 bytes or injects a failure; distinct by hash of (file, entry, script, failure)',
+    'partial': ['C10_full is false on the unchanged code (C10_full_false, finding F13: for KeePass 1 files get_version reports the flags word, '
+                'open reports the version field); C10_partial proves every other clause for all inputs and the last clause for non-KDB files'],
+    'assumptions': ['std::io::Read::read_to_end behaves as documented (loop until Ok(0), retry Interrupted, propagate other errors)'],
+    'level_text': 'Kernel-checked: for every source schedule (short reads, interruptions, failure at any offset) and every buffer-size policy '
+                  'of std, read_to_end-based entry points return the whole-buffer result or the source error, never a prefix; version sniffing '
+                  '(bounded read of 12 bytes) likewise. Tied to the real entry points by scripted Read implementations.',
+}
+PROPS['C11'] = {
+    'ops': ['iowrite'],
+    'rule': 'databases saved without compression (deterministic length) through scripted sinks: caps 1..16, 32, 33, 64, 100, random caps with '
+            'interruptions and Ok(0), failure at strided (quick) / every (thorough) byte offset incl. every segment boundary +-1, kinds '
+            '{Other, UnexpectedEof, BrokenPipe}; non-trivial = the sink accepts fewer bytes than offered on some call, refuses, or fails before the end',
+    'assumptions': ['std::io::Write::write_all behaves as documented', 'byteorder write_* helpers use write_all'],
+    'level_text': 'Kernel-checked for every sink behaviour and every segment list: save reports success only if the sink received the complete file; '
+                  'otherwise the error is the sink\'s (or WriteZero) and the sink holds a prefix. Tied to Database::save by scripted Write '
+                  'implementations; success is additionally checked by re-opening the captured bytes.',
+}
